@@ -388,9 +388,53 @@ def r15d(ctx, rep, cr):
     rep.holds('R15d', 'neumann_parser', 'bounds-checked index sites', '%d sites examined' % n)
 
 
+def r15e(ctx, rep, cr):
+    rep.rule('R15e', 'a prefix operator takes its operand at prefix power, always: in Parser::parse_prefix_expr and ExprParser::parse_prefix, '
+                     'every arm of the token dispatch that builds ExprKind::Unary reaches a success return only through the recursive '
+                     'operand parse (parse_expr_bp / parse_bp). An arm that also returns something else early (a folded literal, a '
+                     'shortcut) makes the operator bind differently for that operand — `-5 IS NULL` groups as (-5) IS NULL while '
+                     '`-x IS NULL` stays -(x IS NULL) — and the two parsers disagree')
+    TK = NP + 'token::TokenKind'
+    adt = cr.adts.get(TK)
+    n = 0
+    for fname, rec in ((NP + 'parser::Parser::parse_prefix_expr', r'Parser::parse_expr_bp$'), (NP + 'expr::ExprParser::parse_prefix', r'ExprParser::parse_(expr_)?bp$')):
+        f = rep.require_fn('R15e', cr, fname)
+        if f is None or adt is None:
+            continue
+        ds = lib.enum_dispatches(f, TK)
+        if not ds:
+            rep.violation('R15e', f, 'dispatch', f.loc(), 'anchor-missing: no dispatch on TokenKind')
+            continue
+        tg = lib.variant_targets(adt, ds[0][1])
+        recs = A.calls_to(f, ('re', rec))
+        if not recs:
+            rep.violation('R15e', f, 'operand-parse', f.loc(), 'anchor-missing: no recursive operand parse (%s) in the prefix parser' % rec)
+            continue
+        rblocks = {c.bb for c in recs}
+        for v, tb in sorted(tg.items()):
+            if tb == ds[0][1][3] and v not in ('Minus', 'Bang', 'Not', 'Tilde'):
+                continue
+            stop = {b for vv, b in tg.items() if b != tb}
+            R = A.reachable(f, [tb], cut_blocks=stop)
+            if not any(st[1][0] == 'agg' and st[1][1].endswith('ExprKind::Unary') for b in R for st in f.bbs[b]['s']):
+                continue
+            n += 1
+            rep.analysed(f)
+            rets = lib.success_return_reachable(f, [tb], cut_blocks=stop | rblocks)
+            if rets:
+                rep.violation('R15e', f, 'prefix-arm-shortcut-' + v, f.loc(lib.first_line(f, rets[0])),
+                              'the %s arm can return an expression without parsing its operand at prefix power: for that operand shape the '
+                              'prefix operator binds tighter than the postfix operators (IS NULL, IN, BETWEEN, LIKE), against the documented '
+                              'table and against the other parser' % v)
+            else:
+                rep.holds('R15e', f, 'arm ' + v, 'operand parsed at prefix power on every success path')
+    rep.floor('R15e', 'prefix-operator arms', n, 4)
+
+
 def run(ctx, rep):
     cr = ctx.crate('neumann_parser')
     r15a(ctx, rep, cr)
     r15b(ctx, rep, cr)
     r15c(ctx, rep)
     r15d(ctx, rep, cr)
+    r15e(ctx, rep, cr)
